@@ -651,6 +651,41 @@ Proof.
     + left. reflexivity.
 Qed.
 
+(** * The proposed repair (restart the scan after each emitted variable) schedules like the specification *)
+
+Lemma r_pass_pick st nodes :
+  r_pass st nodes = match g_pick st nodes with Some (n, rest) => (Some n, rest) | None => (None, nodes) end.
+Proof.
+  induction nodes as [|n rest IH]; simpl; [reflexivity|].
+  destruct (ready st n); [reflexivity|]. rewrite IH.
+  destruct (g_pick st rest) as [[m rest']|]; reflexivity.
+Qed.
+
+Lemma g_pick_length st : forall nodes n rest, g_pick st nodes = Some (n, rest) -> length nodes = S (length rest).
+Proof.
+  induction nodes as [|m l IH]; intros n rest H; simpl in H; [discriminate|].
+  destruct (ready st m).
+  - inversion H; subst. reflexivity.
+  - destruct (g_pick st l) as [[x l']|] eqn:P; [|discriminate]. inversion H; subst.
+    simpl. f_equal. eapply IH. reflexivity.
+Qed.
+
+Lemma r_loop_agree : forall fuel st nodes fg,
+  length nodes < fuel -> length nodes <= fg -> r_loop fuel st nodes = g_loop fg st nodes.
+Proof.
+  induction fuel as [|k IH]; intros st nodes fg Hf Hg; [lia|].
+  simpl. rewrite r_pass_pick. destruct (g_pick st nodes) as [[n rest]|] eqn:P.
+  - pose proof (g_pick_length _ _ _ _ P) as Hl.
+    destruct fg as [|fg']; [lia|]. simpl. rewrite P.
+    destruct rest as [|x rest'] eqn:R.
+    + simpl. rewrite g_loop_nil. reflexivity.
+    + simpl is_nil. cbv iota. rewrite (IH (nid n :: st) (x :: rest') fg'); [reflexivity| |]; simpl in *; lia.
+  - destruct fg; simpl; [reflexivity|]. rewrite P. reflexivity.
+Qed.
+
+Theorem repair_agree nodes : r_sched nodes = g_sched nodes.
+Proof. unfold r_sched, g_sched. apply r_loop_agree; lia. Qed.
+
 (** * Packages: loading order *)
 
 Lemma find_pk_In ps p pk : find_pk ps p = Some pk -> In pk ps /\ pk_id pk = p.
